@@ -31,7 +31,54 @@ type zzC08World struct {
 	force    int              // 0: outcome chosen per transaction; 1: never commits; 2: commits
 	replay   int              // >= 0: step() repeats this operation instead of choosing one
 	lastOp   int
+	// a batch: several operations inside ONE database transaction
+	batchNS      walletdb.ReadWriteBucket
+	batchOutcome int
+	batchName    string
 }
+
+// batch runs n operations inside one database transaction that is committed,
+// rolled back or fails at commit.
+func (w *zzC08World) batch(n int) {
+	// committed batches only: what a transaction that does not commit leaves
+	// behind is the subject of the single-operation histories (and of the
+	// known findings recorded for them)
+	w.batchOutcome = 0
+	w.batchName = "batch"
+	run := func(ns walletdb.ReadWriteBucket) error {
+		w.batchNS = ns
+		defer func() { w.batchNS = nil }()
+		for k := 0; k < n; k++ {
+			w.step()
+		}
+		return nil
+	}
+	verifrt.Observe("tx", "committed")
+	zzMust(w.update(run))
+	verifrt.Reach("batch-committed")
+}
+
+// zzC08Batch: one transaction holding two operations (the wallet's block
+// connection, account import and funding paths do several address-manager
+// operations per transaction), optionally after one committed operation.
+func zzC08Batch(pre int) {
+	w := &zzC08World{zzMgrWorld: zzNewMgrWorld(zzSeedA), scope: KeyScopeBIP0084, prefix: "c08-", replay: -1}
+	for s := 0; s < pre; s++ {
+		w.force = 2
+		w.step()
+	}
+	w.force = 0
+	w.batch(2)
+	if w.compare() {
+		verifrt.Reach("batch-agrees")
+	}
+	verifrt.Reach("c08-end")
+}
+
+func ZzC08Batch0() { zzC08Batch(0) }
+func ZzC08Batch1() { zzC08Batch(1) }
+
+var _ = 0
 
 func (w *zzC08World) sm() *ScopedKeyManager {
 	sm, err := w.mgr.FetchScopedKeyManager(w.scope)
@@ -42,6 +89,14 @@ func (w *zzC08World) sm() *ScopedKeyManager {
 // tx runs op in one database transaction whose outcome is chosen: committed,
 // rolled back by an error (dry run), or failing at commit.
 func (w *zzC08World) tx(name string, op func(ns walletdb.ReadWriteBucket) error) (committed bool) {
+	if w.batchNS != nil {
+		// inside a batch: the operation runs in the batch's transaction,
+		// whose outcome was chosen for the whole batch
+		verifrt.Observe("op", w.batchName+"+"+name)
+		w.batchName += "+" + name
+		zzMust(op(w.batchNS))
+		return w.batchOutcome == 0
+	}
 	var outcome int
 	switch w.force {
 	case 1: // a transaction that does not commit (either way)
@@ -145,12 +200,20 @@ func (w *zzC08World) step() {
 		}
 	case 6:
 		var last uint32
-		zzMust(w.view(func(ns walletdb.ReadBucket) error {
+		readProps := func(ns walletdb.ReadBucket) error {
 			p, err := sm.AccountProperties(ns, w.acct)
 			zzMust(err)
 			last = p.ExternalKeyCount + 1
 			return nil
-		}))
+		}
+		if w.batchNS != nil {
+			// inside a batch: read through the batch's own transaction (a
+			// second, concurrent read transaction would see - and cache -
+			// the state before the batch)
+			zzMust(readProps(w.batchNS))
+		} else {
+			zzMust(w.view(readProps))
+		}
 		w.tx("ExtendExternalAddresses", func(ns walletdb.ReadWriteBucket) error { return sm.ExtendExternalAddresses(ns, w.acct, last) })
 	}
 }
